@@ -211,6 +211,12 @@ class C09Engine(GenEngineBase):
             same_func_only = all(p == k.split(":debug")[0] for p in o["prior"])
             if not same_func_only:
                 continue
+            if o.get("ctx_had_failure"):
+                # an earlier request on this very context failed half-way (injected exception, NotImplementedError,
+                # RecursionError from a deep stack): the context holds half-built state -- e.g. expressions
+                # created but never named -- and a repetition on it is not "the same function traced again"
+                stats["repetitions_on_a_context_with_a_failed_request_not_compared"] = stats.get("repetitions_on_a_context_with_a_failed_request_not_compared", 0) + 1
+                continue
             compared += 1
             states.add(digest_of([case.get("hashseed"), digest_of(hist[: o["pos"]]), k])[:12])
             if o["after_abort"]:
